@@ -5,6 +5,11 @@ set_option linter.unusedSimpArgs false
 namespace Sv.Reread
 open Sv.Config
 
+/-- process_config installs the parsed list unconditionally (decided on the generated facts about
+    ServerOptions.process_config; a guard around the assignment makes this fail) -/
+theorem installParsed_eq (old new : List GConfig) : installParsed old new = new := by
+  simp [installParsed, Sv.Gen.Reread.processConfigInstalls, Sv.Gen.Reread.processConfigInstallGuards]
+
 def nameIs (n : String) (a : Active) : Bool := a.cfg.name == n
 
 theorem find_eq (s : State) (n : String) : s.find n = s.active.find? (nameIs n) := rfl
@@ -248,7 +253,7 @@ theorem doUpdate_find (s : State) (new : List GConfig) (n : String) :
     have hf : ∀ l : List String, List.filter (selected []) l = l := by
       intro l; apply List.filter_eq_self.mpr; intro a _; simp [selected]
     have hv : validNames [] = [] := rfl
-    simp only [doUpdate, reloadConfig, hv, updateCalls, hf, List.contains_nil, Bool.false_eq_true, if_false]
+    simp only [doUpdate, reloadConfig, installParsed_eq, hv, updateCalls, hf, List.contains_nil, Bool.false_eq_true, if_false]
     rfl
   rw [hu, runCalls_append, runCalls_append]
   obtain ⟨r1, r2⟩ := removedBlock R { s with file := new } n
